@@ -39,6 +39,7 @@ def gen_program(rng, max_ranks=8, nsteps=20, with_test=True):
     pending = [[] for _ in range(n)]   # (idx, key)
     kinds = set()
     classes = set()
+    tested = [set() for _ in range(n)]   # keys of the requests a rank has tested so far
 
     def wait_one(r, op):
         if not pending[r]:
@@ -47,8 +48,10 @@ def gen_program(rng, max_ranks=8, nsteps=20, with_test=True):
         idx = min(i for i, k in pending[r] if k == key)      # the replayer pops requests of one (src, dst, tag) in FIFO order
         st[r].append("%s %d" % (op, idx))
         kinds.add(op)
-        if op == "test" and any(k == key and i > idx for i, k in pending[r]):
-            classes.add("test-same-key")     # a younger pending request shares (src, dst, tag) with the tested one
+        if op == "test":
+            tested[r].add(key)
+            if any(k == key and i > idx for i, k in pending[r]):
+                classes.add("test-same-key")     # a younger pending request shares (src, dst, tag) with the tested one
         if op == "wait":
             pending[r] = [(i, k) for i, k in pending[r] if i != idx]
     for _ in range(nsteps):
@@ -66,9 +69,13 @@ def gen_program(rng, max_ranks=8, nsteps=20, with_test=True):
             if sop == "isend":
                 pending[s].append((nreq[s], (s, d, tag)))
                 nreq[s] += 1
+                if (s, d, tag) in tested[s]:
+                    classes.add("test-same-key")     # a new request reuses the (src, dst, tag) of a tested one
             if rop == "irecv":
                 pending[d].append((nreq[d], (s, d, tag)))
                 nreq[d] += 1
+                if (s, d, tag) in tested[d]:
+                    classes.add("test-same-key")
         elif step == "wait":
             wait_one(rng.randrange(n), "wait")
         elif step == "test" and with_test:
